@@ -141,6 +141,13 @@ def run_property(pid, tier, seed):
             res = {}
         bounded = res.get("bounded", [])
         extra_obl = res.get("obligations", [])      # e.g. lexical obligations decided by z3's regex theory
+    if pid in ("C01", "C02", "C06"):
+        try:
+            from checks import lexical
+            extra_obl = list(extra_obl) + lexical.for_property(pid)
+        except Exception:
+            errors.append("lexical obligations crashed: " + traceback.format_exc(limit=6))
+    if True:
         for o in extra_obl:
             n_obl += 1
             solver_s += o.get("seconds", 0.0)
